@@ -578,8 +578,11 @@ def replay_file(path):
     rec = {k: rp[k] for k in ("config", "templates", "threads", "schedule", "midcall")}
     run, vs = run_record(rec, Replay(rp["schedule"]), plan=rp["midcall"])
     dg = log_digest(run)
-    ok = any(v[0] == rp["oracle"] for v in vs) and dg == rp["event_log_digest"]
-    return ok, f"replayed oracles={[v[0] for v in vs]} expected={rp['oracle']} digest_match={dg == rp['event_log_digest']}"
+    # For C16 the same fingerprint must show again; the event-log digest contains the library's result digests,
+    # so when the library itself is irreproducible (the defect C16 is about) it legitimately differs: reported, not required
+    ok = any(v[0] == rp["oracle"] for v in vs)
+    return ok, (f"replayed oracles={[v[0] for v in vs]} expected={rp['oracle']} digest_match={dg == rp['event_log_digest']}"
+                + ("" if dg == rp["event_log_digest"] else " (results differ from the recorded execution: the library is not reproducible across executions)"))
 
 
 # ------------------------------------------------------------------ driver interface
@@ -589,6 +592,7 @@ CHUNK = 50
 CHUNK_TIMEOUT = 900
 THOROUGH_S = 1200
 DET_RUNS = 40
+DET_STRICT = False  # irreproducible results are what C16 forbids: a self-test mismatch is then explained by a violation
 SETS = ("distinct",)
 ASSUMPTIONS = [
     "bit-identity of repeated identical floating-point work inside one process with single-threaded BLAS (OPENBLAS/OMP/MKL_NUM_THREADS=1 enforced by bin/vcheck)",
